@@ -598,14 +598,44 @@ theorem idxMinKey_refines {s : FS} (h : Inv s) (k : Nat) :
   · rintro ⟨a, b⟩; exact ⟨fun e => a (this.2 e), b⟩
   · rintro ⟨a, b⟩; exact ⟨fun e => a (this.1 e), b⟩
 
-theorem recordIterNext_refines {s : FS} (h : Inv s) (next : Nat) :
-    FileStore.recordIterNext s next = History.recordIterNext (abs s) next := by
-  unfold FileStore.recordIterNext History.recordIterNext
+/-- `record_iternext` as the code behaves: it takes the smallest INDEXED oid, whether or not the
+    object still exists (the index keeps the oid of a deleted / un-created object), and fails there -/
+def codeRecordIterNext (h : History) (next : Nat) : Except Err (Nat × Nat × Bytes × Option Nat) :=
+  match History.nextOid h next with
+  | none => .error .valueError
+  | some oid =>
+    match History.load h oid with
+    | .error e => .error e
+    | .ok (d, tid) => .ok (oid, tid, d, History.nextOid h (oid + 1))
+
+theorem recordIterNext_code {s : FS} (h : Inv s) (next : Nat) :
+    FileStore.recordIterNext s next = codeRecordIterNext (abs s) next := by
+  unfold FileStore.recordIterNext codeRecordIterNext
   rw [idxMinKey_refines h]
   cases History.nextOid (abs s) next with
   | none => rfl
   | some oid =>
     simp only [load_refines h, idxMinKey_refines h]
     rfl
+
+theorem nextExisting_eq_nextOid {h : History}
+    (hall : ∀ o ∈ History.oids h, ∃ r, History.load h o = .ok r) (k : Nat) :
+    History.nextExisting h k = History.nextOid h k := by
+  unfold History.nextExisting History.nextOid
+  congr 1
+  apply List.filter_congr
+  intro o ho
+  obtain ⟨r, hr⟩ := hall o ho
+  simp [hr]
+
+/-- PARTIAL: when every object the storage knows currently exists, `record_iternext` answers from the
+    history; with a deleted / un-created object among them it does not (see the witness in Props) -/
+theorem recordIterNext_refines_partial {s : FS} (h : Inv s)
+    (hall : ∀ o ∈ History.oids (abs s), ∃ r, History.load (abs s) o = .ok r) (next : Nat) :
+    FileStore.recordIterNext s next = History.recordIterNext (abs s) next := by
+  rw [recordIterNext_code h]
+  unfold codeRecordIterNext History.recordIterNext
+  simp only [nextExisting_eq_nextOid hall]
+  rfl
 
 end Proofs.FileStoreRefine2
